@@ -57,7 +57,7 @@ package unexports2
 // whose name is exactly the requested one, or return (0, error) — never another symbol's address.
 //@ func FindFuncByName
 //@   props C10
-//@   assigns everything
+//@   assigns symTable, symTableLoadError, funcAlignment, varAlignment
 //@   ensures exact_address: result1 == nil ==> symTable != nil && lookup_func(symTable, name) != nil && lookup_func(symTable, name).Sym != nil && lookup_func(symTable, name).Sym.Name == name
 //@     | && result0 == uintptr(lookup_func(symTable, name).Entry) + funcAlignment
 //@   ensures error_no_address: result1 != nil ==> result0 == 0
@@ -65,7 +65,7 @@ package unexports2
 
 //@ func FindVarByName
 //@   props C10
-//@   assigns everything
+//@   assigns symTable, symTableLoadError, funcAlignment, varAlignment
 //@   ensures exact_address: result1 == nil ==> symTable != nil && exists i int :: 0 <= i && i < len(symTable.Syms) && symTable.Syms[i].Name == name && no_sym_named(symTable, name, i)
 //@     | && result0 == uintptr(symTable.Syms[i].Value) + varAlignment
 //@   ensures error_no_address: result1 != nil ==> result0 == 0
@@ -73,7 +73,7 @@ package unexports2
 
 //@ func initAlignmentFunc
 //@   props C10
-//@   assigns everything
+//@   assigns symTable, symTableLoadError, funcAlignment, varAlignment
 //@   ensures func_slide: true
 
 // CreateFuncForCodePtr re-points the func variable *outFuncPtr at codePtr by fabricating a func value
